@@ -307,7 +307,11 @@ def oracle(res, tier):
                         excl[ix, iy] = True
                         epin = float(err[ix, iy])
                         worst_pin = max(worst_pin, epin)
-                        if epin > float(bound[ix, 0]):
+                        # (pinned corners are exempt from the tolerance — e.g. with the dct interpolant psi at the X-point differs by 1e-5 from
+                        # the separatrix value, which find_critical takes from its own spline — but not from being pinned to the right X-point:
+                        # no other X-point of the equilibrium may be nearer in psi to this radial index's surface)
+                        others = [abs(q - float(exp[ix, 0])) for q in on.get("xpoints_psi", [])]
+                        if epin > float(bound[ix, 0]) and others and min(others) < epin - float(bound[ix, 0]):
                             R, Z = on["pos"][suf]
                             res.violation("pinned-off-surface:%s" % t, "%s region %s: the corner pinned to an X-point, (%.6f, %.6f), has psi=%.9g but its radial "
                                           "index has psi=%.9g (|diff|=%.2e): pinned to an X-point of a different surface"
